@@ -111,7 +111,7 @@ def run_case(R: Recorder, case: dict[str, Any], verbose: bool = False) -> None:
                     await asyncio.sleep(g * q)
                 tasks.append(loop.create_task(caller(i)))
                 if cancel is not None and cancel[0] == i:
-                    loop.call_at(clock.now + cancel[1] * q, tasks[-1].cancel)
+                    loop.call_at(clock.now + cancel[1] * q, lambda t=tasks[-1]: got.__setitem__("cancel_accepted", t.cancel()))
 
         if scoped:
             async with ctx.scope("throttle-scope"):
@@ -185,6 +185,9 @@ def run_case(R: Recorder, case: dict[str, Any], verbose: bool = False) -> None:
                 bad = (i, "cancelled although nobody cancelled it")
                 break
             continue
+        if cancel is not None and cancel[0] == i and got.get("cancel_accepted"):
+            bad = (i, f"its cancellation was accepted (Task.cancel() returned True) but it ended {r[0]}")
+            break
         if i not in produced or r[1] is not produced[i] or (r[0] == "value") != (not fails[i]):
             bad = (i, f"caller saw {r!r}, function produced {produced.get(i)!r}")
             break
